@@ -14,9 +14,9 @@ inductive RecCase (s : St) (xo x : Pt) (y : Rat) (sd : Option Rat) (rd : Bool) (
   | norecHit (i : Nat) (hrd : rd = false) (h1 : lastMatch x s.rows = some i) (h2 : s' = { s with rows := bumpN s.rows i })
       (h3 : v = y) (h4 : idx = some i)
   | norecMiss (hrd : rd = false) (h1 : lastMatch x s.rows = none) (h2 : s' = s) (h3 : v = y) (h4 : idx = none)
-  | merge (i : Nat) (sdv : Rat) (hrd : rd = true) (h0 : sd = some sdv) (h1 : firstMatch x s.rows = some i)
+  | merge (i : Nat) (sdv : Rat) (hrd : rd = true) (h0 : sd = some sdv ∧ s.he = true) (h1 : firstMatch x s.rows = some i)
       (h2 : s' = { s with rows := modAt (fun r => mergeRow r y sdv) s.rows i }) (h4 : idx = some i)
-  | fresh (cap' : Nat) (hrd : rd = true) (h1 : sd = none ∨ firstMatch x s.rows = none)
+  | fresh (cap' : Nat) (hrd : rd = true) (h1 : (sd = none ∨ s.he = false) ∨ firstMatch x s.rows = none)
       (h2 : s' = { s with rows := s.rows ++ [{ xo := xo, x := x, y := y, yo := y, tau := sd.map (fun v => 1 / (v * v)), n := 1 }],
                           cap := cap', xMaxIdx := min (s.xMaxIdx + 1) cap' })
       (h3 : v = y) (h4 : idx = some s.rows.length) (h5 : s.cap ≤ cap')
@@ -41,20 +41,25 @@ theorem record_cases (s : St) (xo x : Pt) (y : Rat) (sd : Option Rat) (rd : Bool
     cases sd with
     | none =>
       simp only [Except.ok.injEq, Prod.mk.injEq] at h
-      refine .fresh _ rfl (Or.inl rfl) h.1.symm h.2.1.symm h.2.2.symm ?_ rfl
+      refine .fresh _ rfl (Or.inl (Or.inl rfl)) h.1.symm h.2.1.symm h.2.2.symm ?_ rfl
       split <;> omega
     | some sdv =>
-      cases hf : firstMatch x s.rows with
-      | none =>
-        simp only [hf, Option.map_none, Except.ok.injEq, Prod.mk.injEq] at h
-        refine .fresh _ rfl (Or.inr hf) h.1.symm h.2.1.symm h.2.2.symm ?_ rfl
+      by_cases hhe : s.he = true
+      · simp only [if_pos hhe] at h
+        cases hf : firstMatch x s.rows with
+        | none =>
+          simp only [hf, Option.map_none, Except.ok.injEq, Prod.mk.injEq] at h
+          refine .fresh _ rfl (Or.inr hf) h.1.symm h.2.1.symm h.2.2.symm ?_ rfl
+          split <;> omega
+        | some i =>
+          simp only [hf, Option.map_some] at h
+          split at h
+          · exact absurd h (by simp)
+          · simp only [Except.ok.injEq, Prod.mk.injEq] at h
+            exact .merge i sdv rfl ⟨rfl, hhe⟩ hf h.1.symm h.2.2.symm
+      · simp only [if_neg hhe, Except.ok.injEq, Prod.mk.injEq] at h
+        refine .fresh _ rfl (Or.inl (Or.inr (by simpa using hhe))) h.1.symm h.2.1.symm h.2.2.symm ?_ rfl
         split <;> omega
-      | some i =>
-        simp only [hf, Option.map_some] at h
-        split at h
-        · exact absurd h (by simp)
-        · simp only [Except.ok.injEq, Prod.mk.injEq] at h
-          exact .merge i sdv rfl rfl hf h.1.symm h.2.2.symm
 
 /-- Coordinates of a record (original, internal). -/
 def coords (r : Row) : Pt × Pt := (r.xo, r.x)
@@ -115,7 +120,7 @@ theorem value_exact (s : St) (xo x : Pt) (y : Rat) (s' : St) (v : Rat) (idx : Op
   rcases record_cases s xo x y none true s' v idx h with ⟨i, hrd, _, _, _, _⟩ | ⟨hrd, _, _, _, _⟩ | ⟨i, sdv, _, h0, _, _, _⟩ | ⟨c, _, _, h2, h3, h4, _⟩
   · cases hrd
   · cases hrd
-  · cases h0
+  · cases h0.1
   · subst h2; exact ⟨rfl, h3, h4⟩
 
 /-- MERGE = PRECISION-WEIGHTED MEAN, one step: merging `(y, sd)` into a record that summarises the
@@ -166,19 +171,21 @@ theorem merged_value_within_range (r : Row) (obs : List Obs) (a b : Rat) (h : Ro
 /-- In a merge, the record that changes is the record of that very point (first record whose
     coordinates all match), and it changes by `mergeRow`. -/
 theorem merge_hits_own_record (s : St) (xo x : Pt) (y sdv : Rat) (s' : St) (v : Rat) (idx : Option Nat)
-    (h : record s xo x y (some sdv) true = .ok (s', v, idx)) (i : Nat) (hf : firstMatch x s.rows = some i) :
+    (h : record s xo x y (some sdv) true = .ok (s', v, idx)) (hhe : s.he = true) (i : Nat) (hf : firstMatch x s.rows = some i) :
     ∃ r, s.rows[i]? = some r ∧ (r.x == x) = true ∧ s'.rows[i]? = some (mergeRow r y sdv) ∧
       s'.rows.length = s.rows.length ∧ idx = some i := by
   rcases record_cases s xo x y (some sdv) true s' v idx h with ⟨_, hrd, _, _, _, _⟩ | ⟨hrd, _, _, _, _⟩ | ⟨i', sdv', _, h0, h1, h2, h4⟩ | ⟨c, _, h1, _, _, _, _⟩
   · cases hrd
   · cases hrd
-  · cases h0
+  · obtain ⟨h0a, _⟩ := h0
+    cases h0a
     rw [hf] at h1; cases h1
     obtain ⟨r, hr, hx⟩ := firstMatch_spec x s.rows i hf
     subst h2
     exact ⟨r, hr, hx, modAt_get_eq _ _ _ _ hr, modAt_length _ _ _, h4⟩
-  · rcases h1 with h1 | h1
+  · rcases h1 with (h1 | h1) | h1
     · cases h1
+    · rw [hhe] at h1; cases h1
     · rw [hf] at h1; cases h1
 
 /-! ### Counts -/
